@@ -5,7 +5,7 @@ import codec_common as cc
 CONFIG = {
     "lean_props": "J5V/Props/C06.lean",
     "extract": ["codec"],
-    "streams": [cc.FUZZ(64000, 1200000), cc.STRESS(48, 400)],
+    "streams": [cc.FUZZ(64000, 1200000), cc.STRESS(48, 400), cc.HISTORY(24000, 400000)],
     "trusted_base": cc.TRUSTED,
     "assumptions": cc.ASSUMPTIONS,
 }
